@@ -138,7 +138,9 @@ class Gateway:
             ret = child_id in self.sensors[sensorid].children
             if not ret:
                 _LOGGER.warning("Child %s is unknown", child_id)
-        if not ret and AwesomeVersion(self.protocol_version) >= AwesomeVersion("2.0"):
+        version = AwesomeVersion(self.protocol_version)
+        # Compare numerically, AwesomeVersion does not order eg 2.0.0 and 2.0.
+        if not ret and (version.section(0), version.section(1)) >= (2, 0):
             _LOGGER.info("Requesting new presentation for node %s", sensorid)
             msg = Message(gateway=self).modify(
                 node_id=sensorid,
